@@ -5,7 +5,7 @@ line = sys.argv[1]
 needs = sys.argv[2] if len(sys.argv) > 2 else ""
 m = re.match(r"RESULT (\S+) suite_fail=(\d+) demo_fail_with=(\d+) demo_pass_without=(\d+) checks:(.*)", line)
 sid, sf, dfw, dpw, checks = m.groups()
-d = "/verif/seeded/%s" % sid
+d = "/verif/seeded/%s%s" % (sid, os.environ.get("DEST_SUFFIX", ""))
 res = {}
 for c in checks.split():
     p, r = c.split(":")
